@@ -299,10 +299,14 @@ class ReadSetReader:
         """
         if regions is None:
             regions = [(0, None)]
-        for s, e in regions:
+        for k, (s, e) in enumerate(regions):
             for alignment in self._reader.fetch(
                 reference=chromosome, sample=sample, start=s, end=e
             ):
+                if k > 0 and self._overlaps_any(alignment.bam_alignment, regions[:k]):
+                    # Delivered already with an earlier region. Without this, an alignment that
+                    # overlaps several regions shows up as several alignments of its read
+                    continue
                 # TODO handle additional alignments correctly!
                 # find out why they are sometimes overlapping/redundant
                 if (
@@ -314,6 +318,15 @@ class ReadSetReader:
                 ):
                     continue
                 yield alignment
+
+    @staticmethod
+    def _overlaps_any(bam_alignment, regions) -> bool:
+        """Whether the alignment overlaps one of the (start, end) regions (end can be None)"""
+        start = bam_alignment.reference_start
+        end = bam_alignment.reference_end
+        if end is None:
+            end = start + 1
+        return any(end > s and (e is None or start < e) for s, e in regions)
 
     def has_reference(self, chromosome):
         return self._reader.has_reference(chromosome)
